@@ -177,15 +177,21 @@ def streamFilter (minLen : Nat) (first : List Nat) (line : Bytes) : Bool :=
 
 /-! ## the one-shot path: `decode._assemble_messages` and `AISSentence.decode` -/
 
-def oneShotAssemble (k : NmeaConsts) (strict : Bool) (args : List Bytes) : Except Err Sentence := do
-  let rec go : List Bytes → List Sentence → Int → Except Err (List Sentence × Int)
-    | [], temp, cnt => .ok (temp, cnt)
-    | a :: rest, temp, cnt => do
-      let s ← produce k a
+/-- the `for msg in args` loop of `_assemble_messages`: collected AIS sentences and the
+`fragment_count` of the last one -/
+def oneShotCollect (k : NmeaConsts) (strict : Bool) :
+    List Bytes → List Sentence → Int → Except Err (List Sentence × Int)
+  | [], temp, cnt => .ok (temp, cnt)
+  | a :: rest, temp, cnt =>
+    match produce k a with
+    | .error e => .error e
+    | .ok s =>
       if strict ∧ ¬ s.isValid then .error .invalidNMEAChecksum
-      else if s.isAIS then go rest (temp ++ [s]) s.fragCnt
-      else go rest temp cnt
-  let (temp, cnt) ← go args [] 1
+      else if s.isAIS then oneShotCollect k strict rest (temp ++ [s]) s.fragCnt
+      else oneShotCollect k strict rest temp cnt
+
+/-- the checks after the loop and the assembly -/
+def oneShotFinish (temp : List Sentence) (cnt : Int) : Except Err Sentence :=
   if temp.isEmpty then .error .missingMultipart
   else if (temp.length : Int) > cnt then .error .tooManyMessages
   else
@@ -195,6 +201,11 @@ def oneShotAssemble (k : NmeaConsts) (strict : Bool) (args : List Bytes) : Excep
     else match assemble temp with
       | some s => .ok s
       | none => .error .indexError
+
+def oneShotAssemble (k : NmeaConsts) (strict : Bool) (args : List Bytes) : Except Err Sentence :=
+  match oneShotCollect k strict args [] 1 with
+  | .error e => .error e
+  | .ok (temp, cnt) => oneShotFinish temp cnt
 
 /-- `AISSentence.decode()` -/
 def decodeSentence (env : Env) (s : Sentence) : Except Err Msg :=
